@@ -73,6 +73,11 @@ def build(case):
             cx, cy = W * (0.2 + 0.6 * ((i * 2) % n) / max(1, n - 1)), H * (0.25 + 0.5 * ((i * 3) % n) / max(1, n - 1))
             init = case.get('init', 'generic')
             # degenerate starts: all given centres in a row, in a column, or at the same point
+            if init == 'diag':
+                # regular, non-aligned starts: centres in arithmetic progression along a slanted line
+                cx, cy = W * (0.1 + 0.1 * i), H * (0.2 + 0.05 * i)
+            if init == 'grid2':
+                cx, cy = W * (0.3 + 0.4 * (i % 2)), H * (0.3 + 0.4 * ((i // 2) % 2))
             if init in ('row', 'same'):
                 cy = H / 2
             if init in ('column', 'same'):
@@ -114,6 +119,11 @@ def build(case):
         mods['P1'] = {'terminal': True, 'fixed': True, 'center': [W * 0.6, 0]}
         names.extend(['P0', 'P1'])
     nets = []
+    if extra == 'padonly':
+        # every module is tied to one fixed pad on the right edge of the die and to nothing else (the netlist is connected
+        # through the pad)
+        mods['P'] = {'terminal': True, 'fixed': True, 'center': [W, H / 2]}
+        return Spectral({'Modules': mods, 'Nets': [[f'M{i}', 'P'] for i in range(n)]})
     for e in TOPOLOGIES[case['topo']](n):
         nets.append([names[i] for i in e] + ([1.5] if len(e) == 3 else []))
     if extra in ('fixed', 'hard', 'bighard', 'mterm'):
@@ -233,6 +243,8 @@ def configurations(tier):
         # a design in very large units (the convergence tolerance max(die) * n * 1e-10 reaches 1)
         cfgs.append(dict(topo='path', masses='unequal', extra='none', die=[2.4e9, 1.6e9], n=5, trials=1, menu=2, reduced4=True))
         cfgs.append(dict(topo='cycle', masses='equal', extra='hard', die=[2.4e9, 1.6e9], n=4, trials=2, menu=2, reduced4=True))
+        # modules tied only to a fixed pad on the die edge
+        cfgs.append(dict(topo='star', masses='equal', extra='padonly', die=[6, 4], n=4, trials=1, menu=2, reduced4=True))
         # the heaviest soft module carries a small rectangle
         cfgs.append(dict(topo='path', masses='unequal', extra='none', die=[6, 4], n=4, trials=1, menu=2, softrect=True))
         cfgs.append(dict(topo='star', masses='unequal', extra='fixed', die=[10, 3], n=4, trials=1, menu=2, softrect=True, reduced4=True))
@@ -306,10 +318,15 @@ def run_shard(shard, tier, res):
             for extra in ('none', 'fixed', 'hard', 'pins'):
                 for die in ([6, 4], [10, 3]):
                     check_case(dict(topo=topo, masses='unequal', extra=extra, die=die, n=5, trials=0, answers=[0.5]), res)
-                    for init in ('row', 'column', 'same'):
+                    for init in ('row', 'column', 'same', 'diag', 'grid2'):
                         for ans in ([0.5, 0.2, 0.8, 0.35, 0.65], [0.9, 0.1, 0.6, 0.3, 0.45]):
                             check_case(dict(topo=topo, masses='unequal', extra=extra, die=die, n=5, trials=0, init=init,
                                             answers=ans), res)
+                    # equal masses, four and five modules: regular starts are then exactly symmetric
+                    for init in ('generic', 'diag', 'grid2'):
+                        for nn in (4, 5):
+                            check_case(dict(topo=topo, masses='equal', extra=extra, die=die, n=nn, trials=0, init=init,
+                                            answers=[0.5, 0.2, 0.8, 0.35, 0.65]), res)
     if last:
         res.samples.append(last)
 
